@@ -24,7 +24,8 @@ const rule = "(A) exclusion: realms of 1–3 schemas (tables, views, columns, in
 	"its selector lists the type at level i; schema scope: relative to the schema) — present with an unchanged descriptor — and nothing that is matched " +
 	"(indexes / fks made of an excluded column: no demand; patterns with too many parts: error or no effect). " +
 	"(B) skip: (current, desired) pairs containing every kind the community differs emit at every level × mysql/postgres/sqlite DefaultDiff " +
-	"RealmDiff / SchemaDiff / TableDiff × all singletons, all pairs and seeded larger subsets of the policy-skippable kinds: the change set with " +
+	"RealmDiff / SchemaDiff / TableDiff × all singletons, all pairs and seeded larger subsets of the policy-skippable kinds, given as one DiffSkipChanges " +
+	"option, one option per kind, or two options (the policy is their union): the change set with " +
 	"DiffSkipChanges == the change set without it filtered at every level (ModifyTable left empty disappears; ModifyView left empty disappears unless its " +
 	"definition changed), compared as per-level multisets of rendered changes, and no skipped kind at any level. " +
 	"distinct = distinct (scope, pattern set, exclusion set) / distinct (dialect, scope, filtered diff); non-trivial = something excluded / something skipped"
@@ -36,6 +37,7 @@ type SkipCase struct {
 	Pair  Pair     `json:"pair"`
 	Kinds []string `json:"kinds"`
 	Norm  bool     `json:"normalized,omitempty"`
+	Split int      `json:"options,omitempty"` // 0 one DiffSkipChanges option, 1 one per kind, 2 two halves
 }
 
 func init() {
@@ -79,18 +81,18 @@ func replay(c *rt.Ctx, raw json.RawMessage) {
 		if err := json.Unmarshal(raw, &cs); err != nil {
 			panic(err)
 		}
-		full, err := diffOnce(cs.Pair, cs.Dia, cs.Scope, nil, cs.Norm)
+		full, err := diffOnce(cs.Pair, cs.Dia, cs.Scope, nil, cs.Norm, 0)
 		if err != nil {
 			fmt.Println("inconclusive:", err)
 			return
 		}
-		got, err := diffOnce(cs.Pair, cs.Dia, cs.Scope, cs.Kinds, cs.Norm)
+		got, err := diffOnce(cs.Pair, cs.Dia, cs.Scope, cs.Kinds, cs.Norm, cs.Split)
 		if err != nil {
 			fmt.Println("inconclusive:", err)
 			return
 		}
 		res := judgeSkip(full, got, cs.Kinds)
-		fmt.Printf("%s %s skip=%v\nfull diff:\n", cs.Dia, cs.Scope, cs.Kinds)
+		fmt.Printf("%s %s skip=%v options=%d\nfull diff:\n", cs.Dia, cs.Scope, cs.Kinds, cs.Split)
 		for _, e := range res.Full {
 			fmt.Println("  ", e.S)
 		}
@@ -351,6 +353,9 @@ func run(c *rt.Ctx) {
 			cs := base
 			cs.Kinds = kinds
 			cs.Norm = rng.IntN(4) == 0
+			if len(kinds) > 1 {
+				cs.Split = (si + i) % 3 // how the policy is composed from DiffSkipChanges options
+			}
 			var full, got []schema.Change
 			var e1, e2 error
 			if pn, val, st := rt.Try(func() {
@@ -359,11 +364,11 @@ func run(c *rt.Ctx) {
 					m = 1
 				}
 				if !fullDone[m] {
-					fulls[m], fullErr[m] = diffOnce(p, u.dia, u.scope, nil, cs.Norm)
+					fulls[m], fullErr[m] = diffOnce(p, u.dia, u.scope, nil, cs.Norm, 0)
 					fullDone[m] = true
 				}
 				full, e1 = fulls[m], fullErr[m]
-				got, e2 = diffOnce(p, u.dia, u.scope, kinds, cs.Norm)
+				got, e2 = diffOnce(p, u.dia, u.scope, kinds, cs.Norm, cs.Split)
 			}); pn {
 				c.Eval(rt.Digest(u, kinds, "panic"), true)
 				c.Violation("skip|"+rt.PanicKey(st), fmt.Sprintf("panic: %v", val), cs, map[string]any{"stack": st})
@@ -393,6 +398,7 @@ func run(c *rt.Ctx) {
 			c.Count("skip:dialect:"+u.dia, 1)
 			c.Count("skip:scope:"+strings.SplitN(u.scope, ":", 2)[0], 1)
 			c.Count(fmt.Sprintf("skip:set-size:%s", sizeClass(len(kinds))), 1)
+			c.Count(fmt.Sprintf("skip:options:%s", [...]string{"one", "one-per-kind", "two-halves"}[cs.Split]), 1)
 			c.Eval(rt.Digest(u.dia, u.scope, cs.Norm, res.Want), res.Skipped > 0)
 			if res.Why != "" {
 				c.Violation(res.Key, res.Why, cs, map[string]any{"want": res.Want, "have": res.Have})
@@ -412,8 +418,8 @@ func run(c *rt.Ctx) {
 				var full, got []schema.Change
 				var e1, e2 error
 				if pn, val, st := rt.Try(func() {
-					full, e1 = diffOnce(p, u.dia, u.scope, nil, false)
-					got, e2 = diffOnce(p, u.dia, u.scope, cs.Kinds, false)
+					full, e1 = diffOnce(p, u.dia, u.scope, nil, false, 0)
+					got, e2 = diffOnce(p, u.dia, u.scope, cs.Kinds, false, 0)
 				}); pn {
 					c.Violation("skip|"+rt.PanicKey(st), fmt.Sprintf("panic: %v", val), cs, map[string]any{"stack": st})
 					continue
